@@ -55,3 +55,63 @@ package ecscache
 //@   loop 2 invariant forall j int :: 0 <= j && j <= #i ==> hdrOf(rrs[j]).Ttl == newTTL
 //@   loop 2 invariant (#i1 + 1 >= 1 ==> allTTL(resp.Answer, newTTL)) && (#i1 + 1 >= 2 ==> allTTL(resp.Ns, newTTL))
 //@   loop 2 invariant resp != nil && validRRs(resp.Answer) && validRRs(resp.Ns) && validRRs(resp.Extra)
+
+// ---------------------------------------------------------------------------
+// C05: client subnets stay private, ECS-dependent answers stay in their region.
+
+//@ import netip net/netip
+//@ import netutil github.com/AdguardTeam/golibs/netutil
+//@ import agd github.com/AdguardTeam/AdGuardDNS/internal/agd
+//@ import geoip github.com/AdguardTeam/AdGuardDNS/internal/geoip
+//@ import dnsserver github.com/AdguardTeam/AdGuardDNS/internal/dnsserver
+//@ import agdcache github.com/AdguardTeam/AdGuardDNS/internal/agdcache
+
+//@ immutable Middleware.*, mwHandler.*
+
+// subnetOptIs: an option that is a client-subnet option carries exactly this
+// address, source length and scope.  ecsAll: every client-subnet option of the
+// OPT record the message is read by (the last one, as IsEdns0 does) does.
+//@ pred subnetOptIs(o dns.EDNS0, fam int, a netip.Addr, bits int, scope int) = isptr(o, dns.EDNS0_SUBNET) ==>
+//@        ipBytes[arr(asptr(o, dns.EDNS0_SUBNET).Address)] == a && asptr(o, dns.EDNS0_SUBNET).SourceNetmask == bits &&
+//@        asptr(o, dns.EDNS0_SUBNET).SourceScope == scope && asptr(o, dns.EDNS0_SUBNET).Family == fam
+//@ pred ecsAll(m *dns.Msg, fam int, a netip.Addr, bits int, scope int) = forall i int, j int :: lastOPT(m, i) && 0 <= j && j < len(optAt(m, i).Option) ==>
+//@        subnetOptIs(optAt(m, i).Option[j], fam, a, bits, scope)
+//@ pred ecsSome(m *dns.Msg) = exists i int, j int :: lastOPT(m, i) && 0 <= j && j < len(optAt(m, i).Option) && isptr(optAt(m, i).Option[j], dns.EDNS0_SUBNET)
+//@ pred ecsNone(m *dns.Msg) = forall i int, j int :: 0 <= i && i < len(m.Extra) && isOPT(m.Extra[i]) && 0 <= j && j < len(optAt(m, i).Option) ==>
+//@        !isptr(optAt(m, i).Option[j], dns.EDNS0_SUBNET)
+
+// addrToNetIP converts the address to the bytes of the family (assumed: the
+// byte-level conversion is netip's; the error cases are those of the source).
+//@ func addrToNetIP
+//@   modifies ipBytes
+//@   ensures (err == nil) == ((fam == 1 && !addrIs6(ip)) || (fam == 2 && !addrIs4(ip)))
+//@   ensures err == nil ==> fresh(res) && ipBytes[arr(res)] == ip && (forall k int :: k != arr(res) ==> ipBytes[k] == old(ipBytes[k]))
+
+//@ func setECS
+//@   property C05
+//@   requires msg != nil && ecs != nil && validRRs(msg.Extra)
+//@   requires forall i int :: 0 <= i && i < len(msg.Extra) && isOPT(msg.Extra[i]) ==> optAt(msg, i) != nil && optsValid(optAt(msg, i))
+//@   modifies msg.Extra, allelems(dns.RR), allelems(dns.EDNS0), dns.OPT.Option, dns.OPT.Hdr, dns.RR_Header.*, dns.EDNS0_SUBNET.*, ipBytes
+//@   ensures every-subnet-option-rewritten: err == nil ==> ecsAll(msg, ecsFam, prefixAddr(ecs.Subnet), wrap(prefixBits(ecs.Subnet), uint8), isResp ? wrap(prefixBits(ecs.Subnet), uint8) : 0)
+//@   ensures carries-one: err == nil ==> ecsSome(msg)
+//@   loop 1 invariant -1 <= #i && #i < len(opt.Option) && opt != nil && lastOPTptr(msg, opt)
+//@   loop 1 invariant forall j int :: 0 <= j && j <= #i ==> subnetOptIs(opt.Option[j], ecsFam, prefixAddr(ecs.Subnet), prefixLen, scope)
+//@   loop 1 invariant found == (exists j int :: 0 <= j && j <= #i && isptr(opt.Option[j], dns.EDNS0_SUBNET))
+//@   loop 1 invariant ipBytes[arr(ip)] == prefixAddr(ecs.Subnet) && msg.Extra == old(msg.Extra) && optsValid(opt)
+//@ pred lastOPTptr(m *dns.Msg, o *dns.OPT) = exists i int :: lastOPT(m, i) && m.Extra[i] == asiface(o)
+
+//@ func ecsFamFromReq
+//@   property C05
+//@   requires ri != nil
+//@   ensures ecsFam == (addrIs4(ri.ECS != nil ? prefixAddr(ri.ECS.Subnet) : ri.RemoteIP) ? 1 : 2)
+
+//@ func locFromReq
+//@   property C05
+//@   requires ri != nil
+//@   ensures l != nil && fresh(l)
+//@   ensures location-of-the-option-then-of-the-client: l.Country == (ri.ECS != nil && ri.ECS.Location != nil && ri.ECS.Location.Country != "" ? ri.ECS.Location.Country :
+//@             (ri.Location != nil ? ri.Location.Country : (ri.ECS != nil && ri.ECS.Location != nil ? ri.ECS.Location.Country : "")))
+
+//@ func respIsECSDependent
+//@   property C05
+//@   ensures scope == 0 ==> !ok
